@@ -733,6 +733,7 @@ def step (st : St) (line : String) : St × String :=
         | "C10" => Mfull.wC10 p ops
         | "C11" => Mfull.wC11 p ops
         | "C12" => Mfull.wC12 sp p names
+        | "C07" => Mfull.wC07 sp p ops
         | _ => false
       (st, if r then "yes" else "no")
     | _, _, _ => (st, "bad-type")
